@@ -48,6 +48,9 @@ func GenerateTimeline(st, et time.Time) *Timeline {
 }
 
 func (tl *Timeline) PopulateTimeline(s *Segment) {
+	s.m.RLock()
+	defer s.m.RUnlock()
+
 	if s.root == nil {
 		return
 	}
